@@ -212,6 +212,13 @@ Fixpoint fast_path (left : bool) (d : db) (keys : list bytes) : option frame * d
       end
   end.
 
+(** log_blocking_pop (293eff6): the pop a BLPOP/BRPOP performed is written to the append-only file as
+    the LPOP/RPOP of the key that served it; the blocking command itself is never written *)
+Definition log_pop (s : server) (dbi : Z) (left : bool) (k : bytes) : server :=
+  log_aof_in s dbi [FBulk (if left then bs "LPOP" else bs "RPOP"); FBulk k].
+Definition log_served (s : server) (dbi : Z) (left : bool) (r : frame) : server :=
+  match r with FArray [FBulk k; FBulk _] => log_pop s dbi left k | _ => s end.
+
 Definition h_bpop (left : bool) (now : Z) (s : server) (b : blocking) (c dbi : Z) (parts : list frame)
            (oms : option Z) : frame * server * blocking :=
   if len parts <? 3 then (r_err, s, b) else
@@ -222,7 +229,7 @@ Definition h_bpop (left : bool) (now : Z) (s : server) (b : blocking) (c dbi : Z
       | None => (r_err, s, b)
       | Some keys =>
           match fast_path left (get_db s dbi) keys with
-          | (Some r, d') => (r, set_db s dbi d', b)
+          | (Some r, d') => (r, log_served (set_db s dbi d') dbi left r, b)
           | (None, d') =>
               (* inside EXEC (connection id 0) a blocking pop does not block: nil at once (repair d076b83) *)
               if c =? 0 then (FNullArray, set_db s dbi d', b) else
@@ -357,7 +364,8 @@ Definition wake_client (now : Z) (s : server) (b : blocking) (u : wakeup) : serv
   | (FBulk v, d') =>
       match zlookup (u_conn u) (b_blk b) with
       | Some _ =>
-          (set_db s (u_db u) d', unblock (emit b (u_conn u) (FArray [FBulk (u_key u); FBulk v])) (u_conn u))
+          (log_pop (set_db s (u_db u) d') (u_db u) (u_left u) (u_key u),
+           unblock (emit b (u_conn u) (FArray [FBulk (u_key u); FBulk v])) (u_conn u))
       | None =>
           (* nobody to take it: put it back at the end it came from, and tell the next client
              waiting on the key (0715a3b) *)
@@ -369,7 +377,9 @@ Definition wake_client (now : Z) (s : server) (b : blocking) (u : wakeup) : serv
       | Some st =>
           match recheck (bl_left st) d' (bl_keys st) with
           | (Some (k, v), d'') =>
-              (set_db s (u_db u) d'', unblock (emit b (u_conn u) (FArray [FBulk k; FBulk v])) (u_conn u))
+              (* served from another of its keys: logged as the pop of THAT key (293eff6) *)
+              (log_pop (set_db s (u_db u) d'') (u_db u) (bl_left st) k,
+               unblock (emit b (u_conn u) (FArray [FBulk k; FBulk v])) (u_conn u))
           | (None, d'') =>
               (set_db s (u_db u) d'',
                with_reg b (reregister (b_reg b) (u_db u) (u_conn u) (bl_keys st) (bl_left st) (bl_dl st) (u_at u)))
